@@ -35,12 +35,12 @@ type evt struct {
 }
 
 type recorder struct {
-	mu      sync.Mutex
-	clock   int
-	evs     []evt
-	nspans  int            // spans started by the code under test (caller spans excluded)
-	byID    map[string]int // tracer-level span id -> index (1..) ; caller spans -> -caller
-	owner   map[int]int    // span index -> caller it is attributed to
+	mu     sync.Mutex
+	clock  int
+	evs    []evt
+	nspans int            // spans started by the code under test (caller spans excluded)
+	byID   map[string]int // tracer-level span id -> index (1..) ; caller spans -> -caller
+	owner  map[int]int    // span index -> caller it is attributed to
 }
 
 func newRecorder() *recorder { return &recorder{byID: map[string]int{}, owner: map[int]int{}} }
@@ -232,7 +232,7 @@ func (s *otSpan) SetBaggageItem(k, v string) opentracing.Span {
 	return s
 }
 func (s *otSpan) BaggageItem(k string) string { return s.ms.BaggageItem(k) }
-func (s *otSpan) Tracer() opentracing.Tracer { return s.t }
+func (s *otSpan) Tracer() opentracing.Tracer  { return s.t }
 func (s *otSpan) LogEvent(e string)           { s.op("log", ""); s.ms.LogEvent(e) }
 func (s *otSpan) LogEventWithPayload(e string, p interface{}) {
 	s.op("log", "")
